@@ -39,7 +39,7 @@ FUNCTION = "autograd.core.backward_pass"
 PARENTS_FUN = set()
 ELEM_KIND = "node"
 DICT_SORTS = {"*": (Node, Pair)}
-DICT_VAL = {"outgrads": "pair"}
+DICT_VAL = {"D1": "pair"}
 EXPECT = dict(loops=2)
 
 AXIOMS = [
@@ -61,12 +61,20 @@ AXIOMS = [
 
 
 def init(gen, st, tree):
+    import ast
+    from vlib.pyvc import ExtractError
     args = [a.arg for a in tree.args.args]
-    if args != ["g", "end_node"]:
-        from vlib.pyvc import ExtractError
-        raise ExtractError(f"signature changed: {args}")
-    st.v["g"] = ("val", G0)
-    st.v["end_node"] = ("node", END)
+    if len(args) != 2 or tree.args.defaults or tree.args.vararg or tree.args.kwarg or tree.args.kwonlyargs:
+        raise ExtractError(f"signature changed: {args} (two positional parameters without defaults expected: cotangent, end node)")
+    st.v[args[0]] = ("val", G0)      # parameters are bound by position
+    st.v[args[1]] = ("node", END)
+    # the variable that receives <dict>.pop(<node>) is read after the loop: bind it now (role DP1) so the loop-head havoc covers it
+    pops = [n_ for n_ in ast.walk(tree) if isinstance(n_, ast.Assign) and isinstance(n_.value, ast.Call) and isinstance(n_.value.func, ast.Attribute) and n_.value.func.attr == "pop"
+            and len(n_.value.args) == 1 and isinstance(n_.targets[0], ast.Name)]
+    if len(pops) != 1:
+        raise ExtractError("expected exactly one `<x> = <dict>.pop(<node>)`")
+    gen.roles["DP1"] = pops[0].targets[0].id
+    st.v[pops[0].targets[0].id] = ("pair", gen.fresh("popped_init", Pair))
     g = st.g
     g["OUT"], g["OUTLEN"] = z3.Array("OUT0", I, Node), z3.IntVal(0)
     g["t"], g["j"] = z3.IntVal(0), z3.IntVal(0)
@@ -80,9 +88,10 @@ def init(gen, st, tree):
 
 
 class X:
-    def __init__(self, st):
+    def __init__(self, gen, st):
+        # roles: D1 = the dict initialised with {end_node: (g, False)} (outgrads); IT1 = target of the outer for (node); DP1 = target of the dict pop (outgrad)
         v, g = st.v, st.g
-        og = v["outgrads"]
+        og = gen.var(st, "D1")
         self.has = lambda a: z3.Select(og[1], a)
         self.val = lambda a: Pair.v(z3.Select(og[2], a))
         self.flag = lambda a: Pair.flag(z3.Select(og[2], a))
@@ -94,8 +103,10 @@ class X:
         self.csK = lambda a, b: z3.Select(g["csK"], a, b)
         self.slotB = lambda a, b: z3.Select(g["slotB"], a, b)
         self.Fold = lambda a, b: z3.Select(g["Fold"], a, b)
-        self.node = v["node"][1] if "node" in v else None
-        self.outgrad = v["outgrad"][1] if "outgrad" in v else None
+        it1 = gen.roles.get("IT1")
+        self.node = v[it1[0]][1] if it1 and it1[0] in v else None
+        dp = gen.var(st, "DP1")
+        self.outgrad = dp[1] if dp else None
 
 
 def contr(x, a, b):
@@ -131,11 +142,11 @@ def inv_common(x, inner):
 
 
 def inv1(gen, st):
-    return inv_common(X(st), inner=False)
+    return inv_common(X(gen, st), inner=False)
 
 
 def inv2(gen, st):
-    return inv_common(X(st), inner=True)
+    return inv_common(X(gen, st), inner=True)
 
 
 LOOPS = {
@@ -146,12 +157,12 @@ LOOPS = {
 
 # ---- ghost updates ---------------------------------------------------------------------------------------------------
 def h_newdict(gen, st, name):
-    st.v["outgrad"] = ("pair", gen.fresh("outgrad_init", Pair))  # `outgrad` is only bound inside the loop; SL >= 1 guarantees one iteration
+    pass
 
 
 def h_setsub(gen, st, key, contribution):
     g = st.g
-    node, j = st.v["node"][1], g["j"]
+    node, j = st.v[gen.roles["IT1"][0]][1], g["j"]
     c0 = z3.Select(g["cnt"], key)
     g["csS"] = z3.Store(g["csS"], key, c0, node)
     g["csK"] = z3.Store(g["csK"], key, c0, j)
@@ -251,14 +262,14 @@ def for_havoc(gen, st, lid, s):
 def for_cond(gen, st, lid, s):
     if lid == 1:
         return st.g["t"] < SL
-    return st.g["j"] < npar(st.v["node"][1])
+    return st.g["j"] < npar(st.v[gen.roles["IT1"][0]][1])
 
 
 def for_bind(gen, st, lid, s):
     if lid == 1:
         st.v[s.target.id] = ("node", z3.Select(S, st.g["t"]))
     else:
-        nd = st.v["node"][1]
+        nd = st.v[gen.roles["IT1"][0]][1]
         ing = st.v[s.iter.args[1].id]
         st.v[s.target.elts[0].id] = ("node", par(nd, st.g["j"]))
         st.v[s.target.elts[1].id] = ("val", VJP(ing[1], ing[2], st.g["j"]))
@@ -272,7 +283,7 @@ def for_step(gen, st, lid, s):
 
 
 def post(gen, st):
-    x = X(st)
+    x = X(gen, st)
     ret = st.v.get("$ret")
     last = z3.Select(S, SL - 1)
     return [
